@@ -31,7 +31,7 @@ GROUPS["reader_step"] = {
     "harnesses": [
         ("step_request_more", {"props": ["C02", "C09", "C10", "C14", "C01", "C04", "C08"], "cost": 9,
                                "what": "one request_more from any Inv-state: window content, position, mark, flags, one read, buffer size bound"}),
-        ("step_request_more_shrink_region", {"props": ["C02", "C10", "C14"], "cost": 10, "flags": ["--default-unwind", "14"], "rss_gb": 24, "flags_thorough": ["--default-unwind", "18"],
+        ("step_request_more_shrink_region", {"props": ["C02", "C10", "C14"], "cost": 10, "flags": ["--default-unwind", "14"], "rss_gb": 24, "flags_tier": {"thorough": ["--default-unwind", "18"]},
                                              "what": "request_more in the realign + shrink region with a buffer of up to SHRINKCAP bytes (chunk 1): the live window survives the shrink decision at its boundary cases"}),
         ("step_request", {"props": ["C02", "C09", "C14"], "cost": 3,
                           "what": "request(n): falls short only at end/error, no read when buffered data suffices"}),
